@@ -264,9 +264,7 @@ func Run(o *corr.Out) {
 	}
 	runScoping(o)
 	runEndToEnd(o)
-	if os.Getenv("VERIF_CONNWIRE") != "" {
-		runConnWire(o)
-	}
+	runConnWire(o)
 }
 
 func runCodec(o *corr.Out) {
